@@ -209,6 +209,8 @@ class Analysis:
                     c = cval(n["b"])
                     if n["op"] == "=" and c is not None:
                         lows[vid] = min(lows.get(vid, c), c)
+                    elif n["op"] == "=" and self._self_plus_nonneg(f, vid, n["b"]):
+                        pass        # `x = x + e` with e >= 0: the written-out form of `x += e`
                     elif n["op"] == "+=":
                         RT = f.T(strip(n["b"]).get("t"))
                         rb = strip(n["b"], all_casts=True)
@@ -226,6 +228,21 @@ class Analysis:
         self._mono_lo = {i: c for i, c in lows.items() if i not in bad}
         # struct/pointer roots for member paths: any non-escaped variable
         self._roots = {i for i in vars_ if i not in taken}
+
+    @staticmethod
+    def _self_plus_nonneg(f, vid, rhs):
+        r = strip(rhs, all_casts=True)
+        if not (r.get("k") == "bin" and r.get("op") == "+"):
+            return False
+        for x, y in ((r["a"], r["b"]), (r["b"], r["a"])):
+            xs = strip(x, all_casts=True)
+            if xs.get("k") == "ref" and xs["d"].get("id") == vid:
+                c = cval(y)
+                ys = strip(y, all_casts=True)
+                YT = f.T(ys.get("t"))
+                if (c is not None and c >= 0) or (YT.get("k") in ("int", "bool") and not YT.get("signed")):
+                    return True
+        return False
 
     def entry_state(self):
         st = {}
